@@ -125,17 +125,13 @@ def run(ctx):
         toks = (r["files"].get("trace") or "").split()
         gate_ran = NOCMD in (r.get("err") or "")
         refused = "context canceled" in (r.get("err") or "")
-        jt = list(j["targets"])
-        if 11 in jt:
-            k11 = jt.index(11)
-            jt = jt[:k11 + 1] + [12] * (len(jt) - k11 - 1)
         ran, ti = [], 0
-        for t in jt:          # the targets that ran, read off the trace (tokens in command-line order) and the scheduler's / runner's messages
+        for t in j["targets"]:          # the targets that ran, read off the trace (tokens in command-line order) and the scheduler's message
             if TOKEN[t] is None:
-                if not (refused if t == 12 else gate_ran):
+                if not gate_ran:
                     break
                 ran.append(t)
-                if t == 12:          # one message tells that the next target was refused; nothing can be read off it about later ones
+                if t == 11:          # (what follows a cancelling target leaves no token: it is refused)
                     break
             elif ti < len(toks) and toks[ti] == TOKEN[t]:
                 ran.append(t)
@@ -145,7 +141,7 @@ def run(ctx):
         ran += [99] * (len(toks) - ti)          # anything else in the trace: a target that must not have run, or a command after a failing one
         if gate_ran and 10 not in ran and 11 not in ran:
             ran.append(98)
-        items.append("(%d%%N, targets_ok %s %s %s %d)" % (j["id"], vlib.clist(BAD), vlib.clist(jt), vlib.clist(ran), r["rc"]))
+        items.append("(%d%%N, targets_e_ok %s [11] %s %s %s %d)" % (j["id"], vlib.clist([b for b in BAD if b != 12]), vlib.clist(j["targets"]), vlib.clist(ran), vlib.cbool(refused), r["rc"]))
         if len(j["targets"]) >= 2:
             res.nontrivial_keys.add(json.dumps([j["targets"], j["form"]]))
     badcli = set()
